@@ -54,6 +54,8 @@ func drawYamlFile(t *rapid.T, label, ruleID, ext string) (C13File, string) {
 	// field layout: id only, title only, both, or mixed per test
 	layout := pick(t, []string{"id", "id", "title", "both", "mixed"}, label+"-layout")
 	kinds := map[string]bool{}
+	// some files are already numbered correctly (then only the end of the file can be off)
+	numbered := chance(t, 30, label+"-numbered")
 	idForms := []string{"1", "7", "007", "42", "\"abc\"", "pine apple", "-3", "942100-1", "~"}
 	for i := 1; i <= n; i++ {
 		lay := layout
@@ -69,7 +71,7 @@ func drawYamlFile(t *rapid.T, label, ruleID, ext string) (C13File, string) {
 			}
 			first = false
 			sep := " "
-			if chance(t, 10, label+"-sep") {
+			if !numbered && chance(t, 10, label+"-sep") {
 				sep = "  "
 			}
 			text := ind + key + ":" + sep + val
@@ -83,7 +85,13 @@ func drawYamlFile(t *rapid.T, label, ruleID, ext string) (C13File, string) {
 			add(kind, ind+key+":", i, text)
 		}
 		idv := pick(t, idForms, label+"-idv")
+		if numbered {
+			idv = fmt.Sprint(i)
+		}
 		tv := pick(t, []string{ruleID + "-" + fmt.Sprint(drawInt(t, 1, 9, label+"-tn")), "\"" + ruleID + "-3\"", "whatever", "920100-1"}, label+"-tv")
+		if numbered {
+			tv = ruleID + "-" + fmt.Sprint(i)
+		}
 		switch lay {
 		case "id":
 			item("test_id", idv)
